@@ -28,6 +28,7 @@ struct OutStream {
 struct InStream {
     got: u64,
     done: bool,
+    reads: u64,
 }
 
 #[derive(Debug, Default)]
@@ -46,6 +47,8 @@ struct ConnApp {
     reader: bool,
     /// identity of the connection this state belongs to (handles are reused)
     uid: Option<i64>,
+    /// after this many ordered reads of a stream the reader switches to unordered reads (0: never)
+    unordered_after: u64,
     /// sizes used round-robin (empty: `dgram_size`), drop flag, skip datagrams refused for good
     dgram_sizes: Vec<u64>,
     dgram_drop: bool,
@@ -71,6 +74,7 @@ impl Apps {
         let a = self.conns.entry((n, c)).or_default();
         a.read_max = s["read_max"].as_u64().unwrap_or(1 << 20) as usize;
         a.ordered = s["ordered"].as_bool().unwrap_or(true);
+        a.unordered_after = s["unordered_after"].as_u64().unwrap_or(0);
         a.active_writer = true;
         a.reader = true;
         a.dgrams_to_send = s["dgrams"].as_u64().unwrap_or(0);
@@ -242,7 +246,8 @@ impl Apps {
     fn read(&mut self, w: &mut World, n: usize, c: usize, id: u64) {
         let (max, ordered) = {
             let a = &self.conns[&(n, c)];
-            (a.read_max, a.ordered)
+            let reads = a.inn.get(&id).map_or(0, |s| s.reads);
+            (a.read_max, a.ordered && (a.unordered_after == 0 || reads < a.unordered_after))
         };
         let r = w.op(
             n,
@@ -251,6 +256,7 @@ impl Apps {
         );
         let a = self.conns.get_mut(&(n, c)).unwrap();
         let s = a.inn.entry(id).or_default();
+        s.reads += 1;
         s.got += r["res"]["total"].as_u64().unwrap_or(0);
         let k = r["res"]["k"].as_str().unwrap_or("");
         if k == "Finished" || k == "Reset" || k == "ClosedStream" {
